@@ -322,8 +322,9 @@ IDENTITY_FNS = re.compile(
 
 
 class Evaluator:
-    def __init__(self, F, oracle=None, inline_depth=4, opaque=None, loop_bound=2, inline_filter=None):
+    def __init__(self, F, oracle=None, inline_depth=4, opaque=None, loop_bound=2, inline_filter=None, concrete_vec=False):
         self.F = F
+        self.concrete_vec = concrete_vec  # Vec::new()/with_capacity() evaluate to concrete (mutable) empty lists
         self.oracle = oracle            # callable(fn_path, node) -> None | "opaque"
         self.opaque = re.compile(opaque) if isinstance(opaque, str) else opaque
         self.inline_depth = inline_depth
@@ -334,7 +335,9 @@ class Evaluator:
         self.types = {}                 # term -> type string (best effort, for enum variant domains)
 
     # ------------------------------------------------------------------ exploration
-    def explore(self, fn, args=None, max_paths=3000, self_value=None):
+    def explore(self, fn, args=None, max_paths=3000, self_value=None, finalize=None):
+        """args: list of values, or a callable returning a fresh list per path (needed when the values are mutable places);
+        finalize(path, args): called after each completed path (to snapshot the final state of mutable arguments)."""
         h = self.F.hir(fn)
         if h is None:
             raise Abort("no HIR for %s" % fn)
@@ -348,7 +351,10 @@ class Evaluator:
             self.stack_fns = [fn]
             infeasible = False
             try:
-                p.ret = self.call_body(h, fn, args, top=True)
+                a_ = args() if callable(args) else args
+                p.ret = self.call_body(h, fn, a_, top=True)
+                if finalize is not None:
+                    finalize(p, a_)
             except Infeasible:
                 infeasible = True
             except Panic as e:
@@ -1240,6 +1246,19 @@ class Evaluator:
             return a0
         if base.endswith("Try::from_output"):
             return V("Ok", (a0,))
+        if self.concrete_vec and isinstance(a0, list) and name == "into" and "convert::Into" in base and node is not None and len(node.get("targs_full") or []) == 2:
+            # `vec.into()` with a workspace target type: its `From<Vec<T>>` impl, evaluated
+            head = node["targs_full"][1].split("<")[0]
+            if not head.endswith("vec::Vec"):
+                cands = self.F.find(r"^<(\w+::)*%s as core::convert::From<alloc::vec::Vec>>::from$" % re.escape(head))
+                if cands:
+                    return self.call_fn(cands[0], [a0], depth, node)
+        if isinstance(a0, list) and name in ("try_from", "try_into") and "convert::Try" in base and node is not None and node.get("targs_full"):
+            # Vec<T>/slice → [T; N]: succeeds exactly when the length is N (the Vec is handed back otherwise)
+            for t_ in node["targs_full"]:
+                m = re.match(r"^\[.*;\s*(\d+)(?:_?usize)?\]$", t_.strip())
+                if m:
+                    return V("Ok", (list(a0),)) if len(a0) == int(m.group(1)) else V("Err", (a0,))
         if IDENTITY_FNS.search(fn):
             return a0
         is_opt = base.startswith("core::option::Option::")
@@ -1254,6 +1273,12 @@ class Evaluator:
                 return V("Some", (args[1],)) if b else V("None")
             if name == "not":
                 return not b
+        if self.concrete_vec and re.search(r"^alloc::vec::Vec(<.*>)?::(new|with_capacity)$", base):
+            return []
+        if self.concrete_vec and isinstance(a0, list) and name == "size_hint":
+            return (len(a0), V("Some", (len(a0),)))
+        if self.concrete_vec and isinstance(a0, list) and name == "reserve":
+            return UNIT
         if re.search(r"core::iter::sources::once_with::once_with$|core::iter::once_with$", base) and len(args) == 1:
             return [self.apply(args[0], [], depth, node)]     # evaluated eagerly: which checks run matters here, not when
         if re.search(r"core::iter::sources::once::once$|core::iter::once$", base) and len(args) == 1:
@@ -1285,6 +1310,10 @@ class Evaluator:
             if base.endswith("swap"):
                 self.path.events.append(Event("call", fn, list(args), None, node.get("sp"), name=name))
             return UNIT
+        if isinstance(a0, list) and (base.startswith("alloc::vec::Vec") or base.startswith("<alloc::vec::Vec")) and name in self.VEC_MUTATORS:
+            r = self.vec_mutator(name, a0, args, depth, node)
+            if r is not NotImplemented:
+                return r
         # iterator sources / adapters / terminals
         r = self.iter_builtin(base, name, args, depth, node)
         if r is not NotImplemented:
@@ -1573,9 +1602,115 @@ class Evaluator:
                 return r
         return NotImplemented
 
+    def collect_into(self, xs, ty, depth, node):
+        """`xs.into_iter().collect::<ty>()` for a concrete sequence: Vec → the list, Result/Option → first failure or the collected
+        payloads, a workspace type → its FromIterator impl evaluated on the list."""
+        ty = ty.strip()
+        m = re.match(r"^(?:core|std)::(result::Result|option::Option)<(.*)>$", ty)
+        if m:
+            fam = ("Ok", "Err") if m.group(1).endswith("Result") else ("Some", "None")
+            inner = split_targs(m.group(2))
+            oks = []
+            for x in xs:
+                v = self.force(x, fam) if isinstance(x, Sym) else x
+                if not isinstance(v, V):
+                    raise Abort("collect of %r" % (x,))
+                if v.name == fam[1]:
+                    return v
+                oks.append(v.fields[0])
+            return V(fam[0], (self.collect_into(oks, inner[0], depth, node),))
+        head = ty.split("<")[0]
+        if head.endswith("vec::Vec") or head.endswith("VecDeque"):
+            return list(xs)
+        # type strings are crate-relative inside their own crate: match the ADT path by suffix
+        cands = [f for f in self.F.find(r"^<(\w+::)*%s as core::iter::traits::collect::FromIterator(<.*>)?>::from_iter$" % re.escape(head))]
+        if cands:
+            return self.call_fn(cands[0], [list(xs)], depth, node)
+        return list(xs)
+
+    VEC_MUTATORS = ("push", "insert", "remove", "swap_remove", "drain", "extend", "clear", "truncate", "retain", "pop", "append", "reverse", "swap", "extend_from_slice", "split_off")
+
+    def vec_mutator(self, name, xs, args, depth, node):
+        """In-place Vec operations on a concrete list (the list object is the place: `&mut self.0` evaluates to it)."""
+        def idx(v):
+            if isinstance(v, int) and not isinstance(v, bool):
+                return v
+            raise Abort("Vec::%s at a symbolic position" % name)
+
+        def bounds(r):
+            if isinstance(r, St) and r.ty.startswith("core::ops::range::Range"):
+                kind = r.ty.rsplit("::", 1)[-1]
+                lo = idx(r.f["start"]) if "start" in r.f else 0
+                hi = idx(r.f["end"]) + (1 if kind in ("RangeInclusive", "RangeToInclusive") else 0) if "end" in r.f else len(xs)
+                if lo > hi or hi > len(xs):
+                    raise Panic("Vec::%s range out of bounds" % name)
+                return lo, hi
+            raise Abort("Vec::%s with a symbolic range" % name)
+        if name == "push" and len(args) == 2:
+            xs.append(args[1])
+            return UNIT
+        if name == "insert" and len(args) == 3:
+            i = idx(args[1])
+            if i > len(xs):
+                raise Panic("Vec::insert index out of bounds")
+            xs.insert(i, args[2])
+            return UNIT
+        if name in ("remove", "swap_remove") and len(args) == 2:
+            i = idx(args[1])
+            if i >= len(xs):
+                raise Panic("Vec::%s index out of bounds" % name)
+            if name == "remove":
+                return xs.pop(i)
+            v = xs[i]
+            xs[i] = xs[-1]
+            xs.pop()
+            return v
+        if name == "drain" and len(args) == 2:
+            lo, hi = bounds(args[1])
+            out = xs[lo:hi]
+            del xs[lo:hi]
+            return out
+        if name in ("extend", "extend_from_slice", "append") and len(args) == 2 and isinstance(args[1], list):
+            ys = list(args[1])
+            if name == "append":
+                del args[1][:]
+            xs.extend(ys)
+            return UNIT
+        if name == "clear" and len(args) == 1:
+            del xs[:]
+            return UNIT
+        if name == "truncate" and len(args) == 2:
+            del xs[idx(args[1]):]
+            return UNIT
+        if name == "split_off" and len(args) == 2:
+            i = idx(args[1])
+            if i > len(xs):
+                raise Panic("Vec::split_off out of bounds")
+            out = xs[i:]
+            del xs[i:]
+            return out
+        if name == "retain" and len(args) == 2:
+            keep = [x for x in xs if self.decide_bool(self.apply(args[1], [x], depth, node))]
+            xs[:] = keep
+            return UNIT
+        if name == "pop" and len(args) == 1:
+            return V("Some", (xs.pop(),)) if xs else V("None")
+        if name == "reverse" and len(args) == 1:
+            xs.reverse()
+            return UNIT
+        if name == "swap" and len(args) == 3:
+            i, j = idx(args[1]), idx(args[2])
+            if i >= len(xs) or j >= len(xs):
+                raise Panic("slice::swap out of bounds")
+            xs[i], xs[j] = xs[j], xs[i]
+            return UNIT
+        return NotImplemented
+
     def list_iter(self, name, args, depth, node):
         xs = args[0]
         ap = lambda f, ys: self.apply(f, ys, depth, node)  # noqa: E731
+        if name == "collect" and self.concrete_vec and node is not None and node.get("targs_full"):
+            return self.collect_into(xs, node["targs_full"][-1], depth, node)
         if name in ("iter", "into_iter", "iter_mut", "cloned", "copied", "peekable", "by_ref", "to_vec", "collect", "rev"):
             return list(reversed(xs)) if name == "rev" else xs
         if name == "any":
@@ -1692,5 +1827,5 @@ def lit_value(v):
 
 
 def explore(F, fn, opaque=None, **kw):
-    return Evaluator(F, opaque=opaque, **{k: v for k, v in kw.items() if k in ("inline_depth", "loop_bound", "inline_filter")}).explore(
-        fn, **{k: v for k, v in kw.items() if k in ("args", "max_paths")})
+    return Evaluator(F, opaque=opaque, **{k: v for k, v in kw.items() if k in ("inline_depth", "loop_bound", "inline_filter", "concrete_vec")}).explore(
+        fn, **{k: v for k, v in kw.items() if k in ("args", "max_paths", "finalize")})
